@@ -17,6 +17,61 @@ LO = 127 << 24                     # 127.0.0.0
 LO_LAST = LO + (1 << 24) - 2       # 127.255.255.254 (the broadcast address cannot be a source)
 
 
+MAPPED = 0xFFFF << 32              # ::ffff:0:0/96
+
+
+def seen(listen, src):
+    """the peer address the listener reports for a client bound to src = [family, address]:
+    a dual-stack ([::]) listener reports IPv4 clients as IPv4-mapped IPv6 addresses"""
+    f, a = src
+    if f == 4 and listen == "D":
+        return [6, MAPPED | a]
+    return [f, a]
+
+
+def valid_src(f, a):
+    """usable as the source address of a client socket (the kernel silently rewrites the others)"""
+    if f == 4:
+        return 0 < a < (224 << 24) and a != LO + (1 << 24) - 1
+    if a <= 0 or a > M128 or a >> 120 == 0xFF or a >> 118 == 0x3FA or a >> 32 == 0xFFFF:
+        return False                # ::, multicast, link-local (needs a scope), mapped (is an IPv4 socket)
+    return True
+
+
+def images4(a6):
+    """IPv4 addresses an IPv6 address could be confused with: to_ipv4 / to_ipv4_mapped image (::a.b.c.d,
+    ::ffff:a.b.c.d), the 6to4 payload, and the low 32 bits of anything"""
+    out = [a6 & M32]
+    if a6 >> 112 == 0x2002:
+        out.append((a6 >> 80) & M32)
+    return out
+
+
+def images6(a4):
+    return [MAPPED | a4, a4, (0x2002 << 112) | (a4 << 80), (0x64FF9B << 96) | a4]
+
+
+def peer_class(p):
+    f, a = p
+    if f == 4:
+        return "v4"
+    if a == 1:
+        return "v6-loopback"
+    if a >> 32 == 0:
+        return "v6-compat"
+    if a >> 32 == 0xFFFF:
+        return "v6-mapped"
+    if a >> 112 == 0x2002 or a >> 96 == 0x20010000 or a >> 96 == 0x64FF9B:
+        return "v6-transition"
+    return "v6-ordinary"
+
+
+def covers(net, ip):
+    f, a, p = net
+    w = 32 if f == 4 else 128
+    return f == ip[0] and (a >> (w - p)) == (ip[1] >> (w - p))
+
+
 def v4text(a):
     return "%d.%d.%d.%d" % (a >> 24, (a >> 16) & 255, (a >> 8) & 255, a & 255)
 
@@ -105,21 +160,30 @@ class C18(Prop):
     rule = ("E: entry texts printed from random (address, prefix length) pairs of both families in several spellings "
             "(canonical, zero-padded, upper case, :: compression, dotted-quad tail), prefix lengths at and beyond the "
             "limits, plus ~170 fixed adversarial strings; peers = first/last address of the block, both neighbours, the "
-            "address itself, random inside/outside, the other family. S: a real exporter per scenario with 0-4 "
-            "canonical IPv4 entries around 127.0.0.0/8, 3-9 steps (connections from block edges with 1-4 keep-alive "
+            "address itself, random inside/outside, and the other-family addresses it could be confused with (::ffff:a, ::a, "
+            "6to4/NAT64 embeddings, low 32 bits). S: a real exporter per scenario on 127.0.0.1, [::1] or the dual-stack "
+            "[::], inside a private network namespace where every unicast address is local; 1-2 focus peers drawn from "
+            "IPv4 (127.x, 0.0.0.x, 10.x, other), ::1, IPv4-compatible ::a.b.c.d, IPv4-mapped (IPv4 client on [::]), "
+            "6to4/teredo/NAT64 and ordinary IPv6; 0-4 entries of BOTH families related to a focus peer as seen by the "
+            "listener: covering it (host, /w-1.., /96, /8, /0), covering its image in the other family, the adjacent "
+            "block, or random; 3-9 steps (connections from focus peers, their neighbours and block edges with 1-4 keep-alive "
             "requests over 16 request targets, garbage / half-open / RST faults, metric updates, bursts of 5-50 "
-            "concurrent scrapers), always ending in a well-formed request. Non-trivial: any case where at least one "
+            "concurrent scrapers), always ending in a well-formed request. The (peer class x entry family x covers "
+            "peer/covers image/neither) table of every run is in coverage.c18_measured. Non-trivial: any case where at least one "
             "of the three parsers accepts, or any server scenario; distinct = distinct (case, output).")
     design_ref = "DESIGN.md 4 C18"
     technique = ("Coq proof about a statement-by-statement model of add_allowed_address (ipnet's and std's address "
                  "parsers), ipnet's mask-based containment, check_tcp_allowed, handle_http_request and the accept loop; "
                  "differential correspondence in two layers: pure (parsers, builder, contains) and a real exporter on "
-                 "loopback queried over raw HTTP/1.1 from sockets bound to distinct 127.x.y.z source addresses")
+                 "loopback (IPv4, IPv6 and dual-stack listeners) queried over raw HTTP/1.1 from sockets bound to arbitrary IPv4 "
+                 "and IPv6 source addresses inside a private network namespace")
     level_text = ("Theorems (Coq, all allowlists, peers, request targets, renderings, event histories): a peer contained in no "
                   "listed network gets 403 with an empty body for every target; a peer inside any listed network and every peer "
                   "when no allowlist is configured is served (/health -> OK, anything else -> the rendering passed in); containment "
                   "by ipnet's masks equals equality of the top prefix-length bits, with first/last address inside, both neighbours "
-                  "outside, /0 = the whole family, /w = the host only, allowlist = disjunction; every canonical IPv4 entry "
+                  "outside, /0 = the whole family, /w = the host only, allowlist = disjunction; address families never cross (an IPv6 "
+                  "peer - ::1, ::a.b.c.d, ::ffff:a.b.c.d included - is matched by IPv6 networks only, an IPv4 peer by IPv4 networks "
+                  "only, so a peer with only other-family entries listed gets 403); every canonical IPv4 entry "
                   "(a.b.c.d and a.b.c.d/p) parses to the network it denotes, a plain address to its host network (refuted for the "
                   "code before the fix); everything the parsers return is in range; no sequence of connection events changes the "
                   "listener's allowlist or stops it, and a new connection is then answered per the specification with the current "
@@ -131,17 +195,25 @@ class C18(Prop):
                   "The rendering is an oracle (handle.render() taken around each step); its content is C07/C08. "
                   "The text theorems cover canonical IPv4 entries for all addresses/prefix lengths; IPv6 spellings (::, dotted-quad "
                   "tails, zero padding) and non-canonical IPv4 spellings are covered by concrete Coq examples and by the "
-                  "correspondence runs against the faithful parser models, not by a general theorem. Server scenarios use IPv4 "
-                  "loopback peers only; IPv4-mapped IPv6 peers on dual-stack listeners ([::]) are outside the explored space "
-                  "(the model says such a peer is family V6 and matches no IPv4 network). The peer_addr() error arm of check_tcp_allowed "
+                  "correspondence runs against the faithful parser models, not by a general theorem; in server scenarios the stated "
+                  "meaning of an IPv6 entry is accepted only if the parser model reads the text that way (IPv4 entries: through the "
+                  "printer). As the code stands an IPv4 client of a dual-stack [::] listener is seen as ::ffff:a.b.c.d and is therefore "
+                  "refused by IPv4 entries and served only through IPv6 entries covering the mapped address; the model follows the code "
+                  "and the specification takes the peer address as the socket reports it (recorded as an observation, not a finding). "
+                  "The unspecified address :: cannot be a real peer and appears only in the pure layer; link-local and multicast "
+                  "sources are not used. The peer_addr() error arm of check_tcp_allowed "
                   "(-> not allowed) is not in the model; it is reached on the real server by the RST fault steps when an allowlist "
                   "is configured (a connection reset before accept has no peer address), where its only observable effect is that "
                   "later clients are still served. listener.accept() errors are modelled (AcceptErr) but not provoked. HEAD "
                   "requests and absolute-form targets are not generated.")
-    assumptions = ["all of 127.0.0.0/8 is local on the machine running the check (Linux loopback)",
+    assumptions = ["the driver may create a private network namespace (unshare(CLONE_NEWNET) as root, iproute2 `ip`, AnyIP local "
+                   "routes, ip_nonlocal_bind); if it cannot, the run stops as MACHINERY-BROKEN, it does not pass",
+                   "a dual-stack listener reports an IPv4 client as ::ffff:a.b.c.d and any other client under its own address "
+                   "(self-tested by the driver at start-up); a client's source address is the one it was bound to (asserted after connect)",
                    "the rendering does not change between the two handle.render() calls around a step (checked by the driver)"]
     trusted_extra = ["ipnet 2.11 and core::net address parsers, hyper 1.6 / tokio 1.44 (exercised; the parsers and ipnet's masks are modelled)",
-                     "the harness's own HTTP/1.1 client (status line, Content-Length framing)"]
+                     "the harness's own HTTP/1.1 client (status line, Content-Length framing)",
+                     "Linux network namespaces / AnyIP routing on lo, which make arbitrary source addresses reach the real listener"]
 
     # ------------------------------------------------------------------ generators
     def gen_addr(self, rng, fam):
@@ -174,9 +246,12 @@ class C18(Prop):
         cand = [first, last, (first - 1) & m, (last + 1) & m, a & m, 0, m,
                 (first + rng.below(1 << k)) & m, rng.below(1 << w), (a ^ (1 << rng.below(w))) & m]
         peers = [[fam, x] for x in rng.shuffle(cand)[:rng.range(2, 7)]]
-        if rng.chance(1, 3):
-            of = 6 if fam == 4 else 4
-            peers.append([of, a & (M128 if of == 6 else M32)])
+        # the other family: the addresses this block's members could be confused with
+        other = [[4, x] for x in images4(a & m) + images4(first) + images4(last)] if fam == 6 else \
+                [[6, x] for x in images6(a & m) + [MAPPED | first, MAPPED | last, first, last]]
+        peers += rng.shuffle(other)[:rng.range(1, 3)]
+        if rng.chance(1, 4):
+            peers.append(rng.pick([[6, 0], [6, 1], [6, MAPPED | LO + 1], [6, LO + 1], [4, 1], [4, 0], [4, LO + 1]]))
         return peers
 
     def gen_entry(self, rng):
@@ -220,25 +295,96 @@ class C18(Prop):
             intent = None
         return dict(k="E", entry=txt, intent=intent, peers=self.gen_peers(rng, fam, a, min(p, w) if not plain else w))
 
+    # ---- server scenarios
+    def v4src(self, rng):
+        return rng.weighted([(4, LO + rng.range(1, 16)), (2, LO + rng.below(1 << 24)), (3, rng.range(1, 9)),
+                             (2, (10 << 24) + rng.range(1, 1 << 16)), (1, (192 << 24) | (2 << 8) | rng.range(1, 254)),
+                             (1, rng.range(1 << 24, (224 << 24) - 1))])
+
+    def v6src(self, rng):
+        return rng.weighted([(4, 1), (3, self.v4src(rng)),                                        # ::1, ::a.b.c.d
+                             (2, (0x2002 << 112) | (self.v4src(rng) << 80) | rng.below(4)),         # 6to4
+                             (1, (0x20010000 << 96) | rng.below(1 << 96)),                          # teredo
+                             (1, (0x64FF9B << 96) | self.v4src(rng)),                               # NAT64
+                             (2, (0xFD00 << 112) | rng.below(1 << 32)), (1, (0x20010DB8 << 96) | rng.below(1 << 16)),
+                             (1, rng.range(1 << 64, (0xFE << 120) - 1))])
+
+    def gen_src(self, rng, listen):
+        for _ in range(50):
+            fam = 4 if listen == "4" else 6 if listen == "6" else rng.pick([4, 6])
+            src = [fam, self.v4src(rng) if fam == 4 else self.v6src(rng)]
+            if valid_src(*src):
+                return src
+        return [4, LO + 1] if listen != "6" else [6, 1]
+
+    def gen_sentry(self, rng, fam, a, p, plain):
+        """one scenario entry: [text, meaning]; IPv4 in the documented canonical syntax (meaning checked through the
+        printer), IPv6 in a random spelling (meaning checked through the parser model)"""
+        if fam == 4:
+            return [v4text(a) + ("" if plain else "/%d" % p), ["4", a, 32 if plain else p, plain]]
+        style = rng.pick([0, 1, 2, 3, 3, 5, 4 if a >> 32 in (0, 0xFFFF) or a >> 96 == 0x64FF9B else 3])
+        return [v6text(a, rng, style) + ("" if plain else "/%d" % p), ["P", 6, a, 128 if plain else p]]
+
     def gen_server(self, rng, thorough):
+        listen = rng.weighted([(4, "4"), (4, "D"), (2, "6")])
+        focus = [self.gen_src(rng, listen) for _ in range(rng.range(1, 2))]
         entries = []
         for _ in range(rng.weighted([(1, 0), (3, 1), (3, 2), (2, 3), (1, 4)])):
-            a = rng.weighted([(5, LO + rng.below(8)), (3, LO + rng.below(1 << 24)), (1, LO), (1, LO + 1),
-                              (1, (10 << 24) + rng.below(256)), (1, 0), (1, rng.below(1 << 32))])
-            plain = rng.chance(1, 3)
-            p = 32 if plain else rng.weighted([(4, rng.pick([29, 30, 31, 32])), (2, rng.pick([8, 16, 24, 25])),
-                                               (1, rng.pick([0, 1, 7, 9])), (2, rng.below(33))])
-            entries.append([v4text(a) + ("" if plain else "/%d" % p), [a, p, plain]])
+            P = seen(listen, rng.pick(focus))
+            rel = rng.weighted([(3, "orig"), (3, "image"), (1, "near"), (1, "image-near"), (1, "rand"),
+                                (3 if entries else 0, "nest")])
+            if rel == "nest":
+                # a wider or narrower block around an entry already listed (nested / overlapping allowlists),
+                # written with the same address or with its own network address, placed before or after it
+                m = rng.pick(entries)[1]
+                fam, a, p0 = self.meaning_net(m)
+                w = 32 if fam == 4 else 128
+                p = max(0, min(w, p0 + rng.pick([-1, 1]) * rng.pick([1, 2, 4, 8, 8, 16])))
+                if rng.chance(1, 2):
+                    a = (a >> (w - p)) << (w - p)
+                elif rng.chance(1, 3):
+                    a = ((a >> (w - p)) << (w - p)) + rng.below(1 << min(w - p, 16))
+                plain = p == w and rng.chance(1, 2)
+                entries.insert(rng.below(len(entries) + 1), self.gen_sentry(rng, fam, a, p, plain))
+                continue
+            if rel in ("orig", "near"):
+                fam, a = P
+            elif rel == "rand":
+                fam = rng.pick([4, 6])
+                a = self.gen_addr(rng, fam)
+            else:
+                fam = 10 - P[0]
+                a = rng.pick(images4(P[1]) if fam == 4 else images6(P[1]))
+            w = 32 if fam == 4 else 128
+            plain = rng.chance(1, 4)
+            p = w if plain else rng.weighted([(5, rng.pick([w, w, w - 1, w - 2, w - 8, 8, 0] + ([96, 104, 64, 16] if fam == 6 else [24, 16]))),
+                                              (2, rng.below(w + 1))])
+            if rel.endswith("near") and p > 0:
+                a ^= 1 << (w - p)          # the adjacent block of the same size: does not contain the address
+            elif rng.chance(1, 3):
+                a = (a >> (w - p)) << (w - p)   # written as the network address instead of with host bits
+            entries.append(self.gen_sentry(rng, fam, a, p, plain))
 
         def peer():
-            c = [LO + 1, LO + 2, LO, LO + rng.below(16), LO + rng.below(1 << 24)]
-            for _, (a, p, _) in entries:
-                k = 32 - p
+            r = rng.below(20)
+            cand = []
+            if r < 9:
+                cand = [rng.pick(focus)]
+            elif r < 12:
+                f, a = rng.pick(focus)
+                cand = [[f, a + 1], [f, a - 1]]
+            elif r < 18 and entries:
+                f, a, p = self.meaning_net(rng.pick(entries)[1])
+                k = (32 if f == 4 else 128) - p
                 first = (a >> k) << k
-                last = first + (1 << k) - 1
-                c += [first, last, first - 1, last + 1, a, first + rng.below(1 << k)]
-            c = [x for x in c if LO <= x <= LO_LAST] or [LO + 1]
-            return rng.pick(c)
+                for x in (first, first + (1 << k) - 1, first - 1, first + (1 << k), a, first + rng.below(1 << k)):
+                    if f == 6 and x >> 32 == 0xFFFF:
+                        cand.append([4, x & M32])       # a mapped address is presented by an IPv4 client
+                    else:
+                        cand.append([f, x])
+            cand = [c for c in rng.shuffle(cand) if valid_src(*c) and
+                    (listen == "D" or (listen == "4") == (c[0] == 4))]
+            return cand[0] if cand else self.gen_src(rng, listen)
 
         def conn():
             reqs = [[rng.weighted([(5, "G"), (1, "P")]), rng.pick(TARGETS)] for _ in range(rng.weighted([(4, 1), (2, 2), (1, 3), (1, 4)]))]
@@ -255,7 +401,7 @@ class C18(Prop):
             else:
                 steps.append(["B", rng.range(20, 50) if thorough else rng.range(5, 20), peer(), rng.pick(TARGETS)])
         steps.append(conn())
-        return dict(k="S", entries=entries, steps=steps, renders=None)
+        return dict(k="S", listen=listen, entries=entries, steps=steps, renders=None)
 
     def gen(self, rng, n):
         thorough = n > 10000
@@ -277,14 +423,14 @@ class C18(Prop):
         toks = []
         for s in c["steps"]:
             if s[0] == "C":
-                toks.append("C:%d:%s" % (s[1], ",".join(m + t.encode().hex() for m, t in s[2])))
+                toks.append("C:%d.%d:%s" % (s[1][0], s[1][1], ",".join(m + t.encode().hex() for m, t in s[2])))
             elif s[0] == "B":
-                toks.append("B:%d:%d:%s" % (s[1], s[2], s[3].encode().hex()))
+                toks.append("B:%d:%d.%d:%s" % (s[1], s[2][0], s[2][1], s[3].encode().hex()))
             elif s[0] == "I":
                 toks.append("I")
             else:
-                toks.append("%s:%d:%s" % (s[0], s[1], s[2]))
-        return "S %s | %s" % (ents, " ".join(toks))
+                toks.append("%s:%d.%d:%s" % (s[0], s[1][0], s[1][1], s[2]))
+        return "S %s %s | %s" % (c["listen"], ents, " ".join(toks))
 
     @staticmethod
     def _net(t):
@@ -322,6 +468,7 @@ class C18(Prop):
     def evaluate(self, binpath, cases, tier, tag="cases"):
         rs = super().evaluate(binpath, cases, tier, tag=tag)
         if tag == "cases":
+            self._pairs, self._resp = {}, {}
             st = dict(entry_cases=0, entries_accepted_cidr=0, entries_accepted_plain=0, entries_rejected=0,
                       entries_ipv6_accepted=0, entries_with_documented_intent=0, membership_answers_true=0,
                       membership_answers_false=0, server_scenarios=0, connections=0, responses_200_render=0,
@@ -361,6 +508,7 @@ class C18(Prop):
                             st["burst_connections"] += s[1]
                         else:
                             st["connections"] += 1
+                        self.count_family(c, s[2] if s[0] == "B" else s[1], t[1])
                         for code, body in t[1]:
                             if faulted:
                                 st["requests_after_a_fault"] += 1
@@ -372,8 +520,36 @@ class C18(Prop):
                                 st["responses_200_render"] += 1
                             else:
                                 st["responses_other"] += 1
+            st["family_pairs"] = dict(sorted(self._pairs.items()))
+            st["family_responses"] = dict(sorted(self._resp.items()))
             self._stats = st
         return rs
+
+    @staticmethod
+    def meaning_net(m):
+        return (4, m[1], m[2]) if m[0] == "4" else (m[1], m[2], m[3])
+
+    def count_family(self, c, src, rl):
+        """the address-family table: (peer class x entry family x covers the peer / covers an image of the peer in
+        the other family / neither) per (request, entry) pair, and (peer class x what the allowlist covers) -> status"""
+        P = seen(c["listen"], src)
+        cls = peer_class(P)
+        nets = [self.meaning_net(m) for _, m in c["entries"]]
+        imgs = [[4, x] for x in images4(P[1])] if P[0] == 6 else [[6, x] for x in images6(P[1])]
+        orig = img = False
+        for n in nets:
+            if covers(n, P):
+                rel, orig = "covers-peer", True
+            elif any(covers(n, i) for i in imgs):
+                rel, img = "covers-image", True
+            else:
+                rel = "neither"
+            k = "%s | v%d entry | %s" % (cls, n[0], rel)
+            self._pairs[k] = self._pairs.get(k, 0) + len(rl)
+        what = "no allowlist" if not nets else ("peer listed" if orig else "only its image listed" if img else "not listed")
+        for code, _ in rl:
+            k = "%s | %s -> %d" % (cls, what, code)
+            self._resp[k] = self._resp.get(k, 0) + 1
 
     def extra_checks(self, ctx):
         ctx["coverage"]["c18_measured"] = getattr(self, "_stats", {})
@@ -399,19 +575,23 @@ class C18(Prop):
         if c["k"] == "E":
             intent = "None" if c["intent"] is None else "(Some %s)" % self.cq_entry4(c["intent"])
             return "(CEntry %s %s %s)" % (cq_bytes(c["entry"]), intent, cq_list([self.cq_ip(f, v) for f, v in c["peers"]]))
-        ents = cq_list(["(%s, %s)" % (cq_bytes(t), self.cq_entry4(i)) for t, i in c["entries"]])
+        def sentry(m):
+            if m[0] == "4":
+                return "E4 %s" % self.cq_entry4(m[1:])
+            return "EP (V%d %s, %s)" % (m[1], cq_N(m[2]), cq_N(m[3]))
+        ents = cq_list(["(%s, %s)" % (cq_bytes(t), sentry(m)) for t, m in c["entries"]])
         renders = c.get("renders") or [None] * len(c["steps"])
         steps = []
         for s, r in zip(c["steps"], renders):
             rb = self.cq_hexbytes(r or "")
             if s[0] == "C":
-                steps.append("SConn %s %s %s" % (cq_N(s[1]), rb, cq_list([cq_bytes(t) for _, t in s[2]])))
+                steps.append("SConn %s %s %s" % (self.cq_ip(*seen(c["listen"], s[1])), rb, cq_list([cq_bytes(t) for _, t in s[2]])))
             elif s[0] == "B":
-                steps.append("SBurst %s %s %s %s" % (cq_N(s[1]), cq_N(s[2]), rb, cq_bytes(s[3])))
+                steps.append("SBurst %s %s %s %s" % (cq_N(s[1]), self.cq_ip(*seen(c["listen"], s[2])), rb, cq_bytes(s[3])))
             elif s[0] == "I":
                 steps.append("SInc")
             else:
-                steps.append("SFault %s %s" % (cq_N("GHR".index(s[0])), cq_N(s[1])))
+                steps.append("SFault %s %s" % (cq_N("GHR".index(s[0])), self.cq_ip(*seen(c["listen"], s[1]))))
         return "(CServe %s %s)" % (ents, cq_list(steps))
 
     def coq_out(self, c, o):
